@@ -115,6 +115,12 @@ func (g *Grammar) GoSource(prefix string) string {
 			sb.WriteString("\tPos gram.MyPos\n\tEndPos gram.MyPos\n\tTokens []lexer.Token\n")
 		case 4:
 			sb.WriteString("\tgram.PosMixin\n\tPos lexer.Position\n\tEndPos lexer.Position\n\tTokens []lexer.Token\n")
+		case 5:
+			sb.WriteString("\tEndPos lexer.Position\n")
+		case 6:
+			sb.WriteString("\tPos lexer.Position\n")
+		case 7:
+			sb.WriteString("\tTokens []lexer.Token\n")
 		}
 		if embed > 0 {
 			fmt.Fprintf(&sb, "\t%sEmb\n", name)
